@@ -223,10 +223,12 @@ func main() {
 	r.Set("jobs", len(jobs))
 	waitLeftover := m.stageLeftover() // process runs, on their own pools next to the CPU-bound jobs
 	waitPipeFeed := m.stagePipeFeed()
+	waitIDFile := m.stageIDFile()
 	mon.Par(len(jobs), func(i int) { jobs[i].f() })
 	lap("jobs")
 	waitLeftover()
 	waitPipeFeed()
+	waitIDFile()
 	lap("run")
 
 	m.checkUniqueness()
